@@ -1,7 +1,7 @@
 /-
 C11 — Python ranges and python_version markers convert into each other exactly.
 Property theorems only (helper lemmas in Proofs/PyConvText.lean, PyConvMarker.lean, PyConvSem.lean,
-PyConvRange.lean, PyConvNorm.lean, PyConvGpc.lean, PyConvPoetry.lean).
+PyConvRange.lean, PyConvNorm.lean, PyConvGpc.lean, PyConvPoetry.lean, PyConvLeaf.lean).
 
 Vocabulary.  `EnvPy E X Y Z`: the environment `E` has `python_version = "X.Y"` and
 `python_full_version = "X.Y.Z"` (all of `X Y Z : Nat`, unbounded); `pyV X Y Z` is the version `X.Y.Z`.
@@ -13,6 +13,7 @@ after the grammar recogniser `parseText`) of a marker text, the empty text being
 import PoetryVerif.Proofs.PyConvNorm
 import PoetryVerif.Proofs.PyConvGpc
 import PoetryVerif.Proofs.PyConvPoetry
+import PoetryVerif.Proofs.PyConvLeaf
 import PoetryVerif.Proofs.VRangeOps
 import PoetryVerif.Proofs.MarkerProj
 
@@ -223,6 +224,35 @@ example : let s : Single := ⟨"python_version", ">=", "3.8", false, .ver (.sing
     exact ⟨s, item, rfl, by simp [RelOp, s], hitem, by rw [hev]; exact hmean⟩
   · simp [membersIfUnion] at hc; subst hc
     exact Or.inl ⟨_, rfl, by decide⟩
+
+/-- **`LeafClause` discharged**: C11's `normalize_pair_exact` composed with C06's leaf agreement (text level, all
+numbers): a coherent, evaluable python single marker of the exact shape is a `LeafClause` for poetry's own leaf
+truth `leafEval E`. -/
+theorem leaf_clause (E : Env) (X Y Z : Nat) (hE : EnvPy E X Y Z) (l : Leaf) (hc : CompLeaf E l)
+    (hs : PyShaped l) (hk : convKey l.name = pyKey) : LeafClause (leafEval E) X Y Z l :=
+  leafClause_of_comp E X Y Z hE l hc hs hk
+
+/-- **the one-sided part against poetry's own `validate`** (leaf invariant `PyG E` = coherent, evaluable single
+markers, python ones of the exact shape): if the marker validates to true on the environment of `X.Y.Z`, the
+range admits `X.Y.Z`.  Remaining hypotheses: the leaf specification `S` and `SplitSound`. -/
+theorem pyConstraint_upper_validate_partial (E : Env) (X Y Z : Nat) (hE : EnvPy E X Y Z)
+    (S : LeafSpec (leafEval E) (PyG E)) (hSp : SplitSound X Y Z) (m : M) (g : VC) (hg : M.Good (PyG E) m)
+    (h : gpc m = .ok g) (hv : M.validate E m = .ok true) : g.allowsPlain (pyV X Y Z) = true :=
+  gpc_upper_validate E X Y Z hE S hSp m g hg h hv
+
+/-- **exactness against poetry's own `validate`** for python-only markers: `validate` returns exactly
+`allows(X.Y.Z)` of the range. -/
+theorem pyConstraint_exact_validate_partial (E : Env) (X Y Z : Nat) (hE : EnvPy E X Y Z)
+    (S : LeafSpec (leafEval E) (PyG E)) (hSp : SplitSound X Y Z) (m : M) (g : VC) (hg : M.Good (PyG E) m)
+    (hvars : ∀ n ∈ M.vars m, pyNames.contains n = true)
+    (hne : ∀ d, dnf defaultFuel [] m = .ok d → d ≠ .empty)
+    (hpy : ∀ d, dnf defaultFuel [] m = .ok d → ∀ l ∈ M.leaves d, convKey l.name = pyKey)
+    (h : gpc m = .ok g) : M.validate E m = .ok (g.allowsPlain (pyV X Y Z)) :=
+  gpc_exact_validate E X Y Z hE S hSp m g hg hvars hne hpy h
+
+/-- the invariant `PyG` on a concrete leaf: `python_version >= "3.8"` on CPython 3.8.1 -/
+example : PyG env381 (.single ⟨"python_version", ">=", "3.8", false, .ver (.single (.rng ⟨some (v [3, 8]), none, true, false⟩))⟩) :=
+  ⟨⟨_, rfl, by rfl, true, by rfl⟩, fun _ => ⟨_, [3, 8], rfl, rfl, by simp [RelOp], .short 3 8, by decide⟩⟩
 
 /-- a marker on another variable only: `only` answers `AnyMarker`, the range is universal -/
 example : gpc (.leaf (.single ⟨"sys_platform", "==", "linux", false, .gen (.s (.atom ⟨"linux", .eq, false⟩))⟩)) = .ok VC.any := by
